@@ -1,6 +1,6 @@
 CONSTANTS Graphs = {"line", "tri", "dead", "selfl", "pair"} T = 3 QE = {0, 1, 2, 3} QN = {0, 1, 2} NodeModes = {TRUE, FALSE} NEs = {FALSE}
   Widths = {0} Cuts = {"none", "dist", "init", "prob", "both"} MaxOps = 1 SAMPLE = 12 Moves = {"m11", "m00"} EMIT = FALSE
-  ExhGraphs = {"pair"} Debugs = {FALSE}
+  ExhGraphs = {"pair"} Debugs = {FALSE} REUSE = FALSE
 SPECIFICATION Spec
 INVARIANT C01
 INVARIANT C03b
